@@ -869,6 +869,63 @@ theorem c20_rollback_restores_preceding_value (env : Env ν) (st : Store ν) (i 
   rw [hla] at hm; cases hm
   exact ⟨g₃, _, hg₃, hval, rfl⟩
 
+/-- **However long the log has become, an authorised rollback finds the last approved mutation.**  Let the log be
+    `pre ++ m :: post` with `m` an approved mutation of gene `n` and NO approved mutation of `n` in `post` — `post` may
+    hold any number of refused attempts on any gene, approved mutations of other genes, refused rollbacks and re-adds;
+    there is no bound on its length.  If the gate lets the rollback through (mutations enabled, or the installed callback
+    approves exactly this call), `rollback_mutation` reports `True`, the gene holds `m.orig` again and the rollback is
+    appended as an approved entry: nothing in the log is ever forgotten, rotated out or summarised. -/
+theorem c20_authorised_rollback_succeeds_after_any_number_of_attempts (env : Env ν) (st : Store ν) (i n : Nat)
+    (g : Genome ν) (og : Gene ν) (m : Mut ν) (pre post : List (Mut ν))
+    (hi : st.genomes[i]? = some g) (hf : findGene g.genes n = some og)
+    (hlog : g.log = pre ++ m :: post) (hg : m.gene = n) (ha : m.approved = true)
+    (hquiet : ∀ m' ∈ post, ¬ (m'.gene = n ∧ m'.approved = true))
+    (hauth : g.allow = true ∨
+      (g.allow = false ∧ ∃ c, g.cb = some c ∧ env.adv c st.calls n og.value m.orig .rollback = .approve)) :
+    (step env st (.rollback i n)).2 = .ret true ∧
+    ∃ g', (step env st (.rollback i n)).1.genomes[i]? = some g' ∧
+      findGene g'.genes n = some { og with value := m.orig } ∧
+      g'.log = g.log ++ [⟨n, og.value, m.orig, .rollback, true⟩] := by
+  have hla : lastApproved g.log n = some m := lastApproved_some_iff.mpr ⟨hg, ha, pre, post, hlog, hquiet⟩
+  have hrb : rollback env st.calls g n = mutate env st.calls g n m.orig .rollback := by
+    unfold rollback; rw [hla]
+  have hname := findGene_some_name hf
+  have fin : ∀ k, rollback env st.calls g n = .done (applyMut g og n m.orig .rollback) true k → _ := fun k e => by
+    have hset := getElem?_set_of_some (i := i) (a := applyMut g og n m.orig .rollback) hi
+    rw [if_pos rfl] at hset
+    exact (⟨by rw [step_rollback_done hi e], applyMut g og n m.orig .rollback,
+      by rw [step_rollback_done hi e]; exact hset,
+      by simpa [applyMut, hname] using findGene_putGene_same g.genes { og with value := m.orig }, rfl⟩ :
+      (step env st (.rollback i n)).2 = .ret true ∧
+      ∃ g', (step env st (.rollback i n)).1.genomes[i]? = some g' ∧
+        findGene g'.genes n = some { og with value := m.orig } ∧
+        g'.log = g.log ++ [⟨n, og.value, m.orig, .rollback, true⟩])
+  rcases mutate_cases env st.calls g n m.orig .rollback with ⟨hn, -⟩ | ⟨og', hf', ⟨hal, e⟩ | ⟨hal, hcb, e⟩ |
+    ⟨c, hal, hcb, ⟨ha', e⟩ | ⟨ha', e⟩ | ⟨ha', e⟩⟩⟩
+  · rw [hf] at hn; cases hn
+  all_goals (rw [hf] at hf'; cases hf')
+  · rw [← hrb] at e; exact fin _ e
+  · rcases hauth with h | ⟨-, c, hc, -⟩
+    · rw [hal] at h; cases h
+    · rw [hcb] at hc; cases hc
+  · rw [← hrb] at e; exact fin _ e
+  · rcases hauth with h | ⟨-, c', hc, hap⟩
+    · rw [hal] at h; cases h
+    · rw [hcb] at hc; cases hc; rw [ha'] at hap; cases hap
+  · rcases hauth with h | ⟨-, c', hc, hap⟩
+    · rw [hal] at h; cases h
+    · rw [hcb] at hc; cases hc; rw [ha'] at hap; cases hap
+
+/-- non-vacuity, and the shape seeded change s1 broke: one approved mutation of gene 0 followed by 1001 refused
+    attempts on gene 1 — the rollback of gene 0 still succeeds (an instance of the theorem, not an evaluation) -/
+example :
+    let g : Genome Nat := ⟨true, none, false, [⟨0, 7, .structural, true, .normal⟩, ⟨1, 2, .conditional, false, .high⟩],
+      [(0, .normal), (1, .high)], [⟨0, 1, 7, .user, true⟩] ++ List.replicate 1001 ⟨1, 2, 5, .user, false⟩, 0, none⟩
+    (step (gateEnv none) (⟨[g], 0, 0⟩ : Store Nat) (.rollback 0 0)).2 = .ret true :=
+  (c20_authorised_rollback_succeeds_after_any_number_of_attempts (gateEnv none) _ 0 0 _ ⟨0, 7, .structural, true, .normal⟩
+    ⟨0, 1, 7, .user, true⟩ [] (List.replicate 1001 ⟨1, 2, 5, .user, false⟩) rfl rfl rfl rfl rfl
+    (by intro m' hm'; rw [List.eq_of_mem_replicate hm']; decide) (Or.inl rfl)).1
+
 /-! ## Reachability and the hash assumption -/
 
 /-- Gene names stay distinct (the gene table is a dict) in every store reachable from the empty one; this is
